@@ -15,14 +15,19 @@ TECHNIQUE = "Lean 4 theorems on escaping (decode . escape = id, no markup charac
 LEVEL_TEXT = ("Theorems in Lean for all strings: html escaping decodes back to the original text and contains no '<', '>', quotes or stray '&'; quoteattr yields "
               "one well-formed quoted value that decodes back; anchor ids use only [A-Za-z0-9._-]; a text part renders as exactly its escaped characters. The "
               "renderer model is tied to renderer/html.py byte for byte on trees decorated with markup characters in every string position; the oracle "
-              "diffs the element structure against the same tree with alphabetic strings and compares visible text character for character.")
+              "diffs the element structure against the same tree with alphabetic strings and compares visible text character for character. "
+              "Site templates (C10c): the list of every printed expression of every HTML template is regenerated from the templates with Jinja's own "
+              "parser on every run; templates_escape_user_text is decided on it - auto-escaping is on and every expression is either one of the three "
+              "HTML bodies marked safe or a value printed with no filter at all (a title through |safe or |striptags fails the build); "
+              "jinjaUnescape_escape / jinjaEscape_no_markup: the escaped value decodes back to the author's text and contains no < > \" '; the "
+              "escaping is compared with the project's template environment.")
 LEVEL_NOTE = ("Partial: titles, breadcrumbs and list entries of the site go through Jinja2 autoescape and lxml (outside the model): checked per generated site "
               "by the oracle with html.parser. Trailing whitespace of a description in a cell that also holds a conversions list is dropped by t()'s rstrip "
               "(invisible in HTML; visible text is compared modulo HTML whitespace collapsing). Non-interference is a theorem against a tokenizer written in Lean (renderSvs_skeleton / renderAmount_skeleton: "
               "strings that differ only in their text give the same element structure; renderSvs_text, renderQuantity_text_full: the visible text is the "
               "text verbatim; tagBody_attr_roundtrip: an attribute value derived from user text is one well-formed attribute decoding to that value). "
               "Trusted: Lean kernel.")
-LEAN_MODULES = ["RecipeGrid.Props.C10", "RecipeGrid.Props.C10b"]
+LEAN_MODULES = ["RecipeGrid.Props.C10", "RecipeGrid.Props.C10b", "RecipeGrid.Props.C10c"]
 SOURCES = ["recipe_grid/renderer/html.py", "recipe_grid/markdown.py", "recipe_grid/static_site/templates/__init__.py"]
 RULE = ("recipe trees whose every user string (ingredient, step, output name, free-form unit, preposition, remainder wording) is drawn from strings over "
         "< > & \" ' backslash braces percent hash Unicode and spaces, with random id prefixes; Markdown titles with the same characters; non-trivial = some "
@@ -295,6 +300,18 @@ def correspondence(run):
         run.groups["render_recipe_tree (markup characters)"] += 1
         if impl != m and htmltok.gate_tokens(impl) != htmltok.gate_tokens(m):
             run.disagree("html", {"tree": rsexp.tree(t), "prefix": pre}, impl[:1500], m[:1500])
+    # the escaping the site templates apply to titles, labels and hrefs (Jinja autoescape = markupsafe.escape) vs jinjaEscape (Props/C10c),
+    # through the project's own template environment
+    from recipe_grid.static_site.templates import env
+    tmpl = env.from_string("{{ x }}")
+    rng = run.rng
+    texts = list(NASTY) + ["".join(rng.choice("<>&\"'ab ;#3x\u00e9\u2028") for _ in range(rng.randint(0, 12))) for _ in range(run.budget(300, 5000))]
+    for t, m in zip(texts, run.ask([sexp.tag("jinja-escape", sexp.s(t)) for t in texts])):
+        impl = tmpl.render(x=t)
+        run.case(("jinja-escape", t), any(c in t for c in "<>&\"'"), kind="template-escape")
+        run.groups["template autoescape vs jinjaEscape"] += 1
+        if impl != m:
+            run.disagree("jinja-escape", t, impl[:300], str(m)[:300])
 
 
 def oracle(run):
